@@ -183,3 +183,88 @@ def format_version(state, pattern):
         return {"ok": v2version.format_version(make_vinfo(state), pattern)}
     except (ValueError, KeyError, IndexError) as ex:
         return {"err": exc_name(ex)}
+
+
+CAL_FIELDS = ["year_y", "year_g", "quarter", "month", "dom", "doy", "week_w", "week_u", "week_v"]
+
+
+def vinfo_json(vi):
+    return {"cal": [getattr(vi, f) for f in CAL_FIELDS], "major": vi.major, "minor": vi.minor, "patch": vi.patch,
+            "bid": vi.bid, "tag": vi.tag, "pytag": vi.pytag, "num": vi.num, "inc0": vi.inc0, "inc1": vi.inc1}
+
+
+def vinfo_from_json(j):
+    from bumpver import version
+    kw = dict(zip(CAL_FIELDS, j["cal"]))
+    kw.update(major=j["major"], minor=j["minor"], patch=j["patch"], bid=j["bid"], tag=j["tag"], pytag=j["pytag"],
+              githash="", hexhash="", num=j["num"], inc0=j["inc0"], inc1=j["inc1"])
+    return version.V2VersionInfo(**kw)
+
+
+class _Today:
+    def __init__(self, ymd):
+        self.ymd = ymd
+
+    def __enter__(self):
+        from bumpver import version
+        self._v = version
+        self._old = version.TODAY
+        version.TODAY = dt.date(*self.ymd)
+
+    def __exit__(self, *a):
+        self._v.TODAY = self._old
+
+
+def _quiet():
+    import logging
+    logging.disable(logging.CRITICAL)
+
+
+def parse_version(version_str, pattern, today):
+    from bumpver import v2version, version
+    import re
+    _quiet()
+    with _Today(today):
+        try:
+            vi = v2version.parse_version_info(version_str, pattern)
+        except version.PatternError:
+            return {"err": "PatternError"}
+        except re.error:
+            return {"err": "re.error"}
+        except (TypeError, ValueError, OverflowError, KeyError, IndexError, AssertionError) as ex:
+            return {"err": exc_name(ex)}
+    if vi.githash or vi.hexhash or vi.bid is None:
+        return {"err": "unsupported-by-model"}
+    return {"ok": vinfo_json(vi)}
+
+
+def format_vinfo(vj, pattern):
+    from bumpver import v2version
+    try:
+        return {"ok": v2version.format_version(vinfo_from_json(vj), pattern)}
+    except (ValueError, KeyError, IndexError, TypeError) as ex:
+        return {"err": exc_name(ex)}
+
+
+def pattern_fields(pattern):
+    from bumpver import v2version
+    try:
+        return {"ok": v2version._parse_pattern_fields(pattern)}
+    except (ValueError, KeyError, IndexError) as ex:
+        return {"err": exc_name(ex)}
+
+
+def incr(version_str, pattern, flags, date, today):
+    from bumpver import v2version, version
+    import re
+    _quiet()
+    with _Today(today):
+        try:
+            r = v2version.incr(version_str, pattern, major=flags["major"], minor=flags["minor"], patch=flags["patch"],
+                               tag=flags["tag"], tag_num=flags["tag_num"], pin_increments=flags["pin_increments"],
+                               pin_date=flags["pin_date"], maybe_date=dt.date(*date))
+        except re.error:
+            return {"err": "re.error"}
+        except (TypeError, ValueError, OverflowError, KeyError, IndexError, AssertionError) as ex:
+            return {"err": exc_name(ex)}
+    return {"ok": r}
